@@ -454,6 +454,8 @@ def main(tier):
     c11_more.rule_n(prog, chk)
     c11_more.rule_s(prog, chk)
     c11_more.rule_q(prog, chk)
+    c11_more.rule_o(prog, chk)
+    c11_more.rule_r(prog, chk)
     c11_more.rule_t(mprog, chk)
     c11_more.rule_u(uprog, chk)
     chk.ob("C11c", "positive control: the racy region of witness/omp_control.cpp is flagged and the reduction region is not",
